@@ -166,6 +166,7 @@ func specGenuineER6(s *icmpDriver, p *packets.FrameParser, t uint8) bool {
 //@ requires[pre.ctx]          ctx != nil && sendN >= 0
 //@ ensures[C10.icmp.atom]     ret1 != nil ==> ret0 == nil
 //@ ensures[C10.icmp.result]   ret1 == nil ==> ret0 != nil
+//@ ensures[C03+C04+C05.icmp.chain] ret1 == nil ==> sameslice(ret0.Hops, lastres(TracerouteParallel, 0)) && lastres(TracerouteParallel, 1) == nil
 //@ ensures[C10.icmp.closed]   forallint(h, !old(selb(isOpen, h)) ==> !selb(isOpen, h))
 //@ ensures[C10.icmp.others]   forallint(h, old(selb(isOpen, h)) ==> selb(isOpen, h) && sel(closeN, h) == old(sel(closeN, h)))
 //@ before TracerouteParallel assert[C10.icmp.open] selb(isOpen, ref(driver.source)) && selb(isOpen, ref(driver.sink))
@@ -179,6 +180,8 @@ func specGenuineER6(s *icmpDriver, p *packets.FrameParser, t uint8) bool {
 //@ requires[pre.ctx]          ctx != nil && sendN >= 0
 //@ ensures[C10.entry.atom]    ret1 != nil ==> ret0 == nil
 //@ ensures[C03.entry.hops]    ret1 == nil ==> ret0 != nil && forall(i, 0, len(ret0.Hops), ret0.Hops[i] != nil)
+//@ ensures[C03+C04+C05.entry.chain] ret1 == nil ==> sameslice(ret0.Hops, lastres(ToHops, 0)) && lastres(ToHops, 1) == nil && lastres(runICMPTraceroute, 1) == nil && sameslice(lastarg(ToHops, probes), lastres(runICMPTraceroute, 0).Hops)
+//@ ensures[C06.entry.endpoints]     ret1 == nil ==> ret0.Source.Port == lastres(runICMPTraceroute, 0).LocalAddr.Port()
 //@ ensures[C10.entry.closed]  forallint(h, !old(selb(isOpen, h)) ==> !selb(isOpen, h))
 //@ ensures[C10.entry.others]  forallint(h, old(selb(isOpen, h)) ==> selb(isOpen, h) && sel(closeN, h) == old(sel(closeN, h)))
 //@ modifies *, ghost isOpen, ghost closeN, ghost clock, ghost sendN, ghost sendLog, ghost sendClock
